@@ -1,6 +1,6 @@
 (* Pins the C11 statements and prints what they depend on. Compiled on every run. *)
 From Coq Require Import String.
-From VP Require Import Base.Tactics Expr.Syntax Expr.Float Expr.Gen_EvalTables Expr.Model Expr.B64 Expr.Run Expr.Props.
+From VP Require Import Base.Tactics Expr.Syntax Expr.Float Expr.Gen_EvalTables Expr.Model Expr.B64 Expr.Run Expr.PropsC11.
 Close Scope string_scope.
 Open Scope list_scope.
 
